@@ -115,8 +115,9 @@ impl Engine for C03 {
                 if f.chance(50) {
                     // writer side; aimed at the final buffer (everything after the last multiple of 8192) half of the time
                     let aimed = f.chance(50);
-                    let tail_start = len - len % 8192;
-                    let at = if aimed { f.range(tail_start.min(len), len.max(1) - if len > 0 { 1 } else { 0 }) } else { f.below(len + 1) };
+                    // the final buffer: everything after the last multiple of 8192 that is strictly below len
+                    let tail_start = len.saturating_sub(1) / 8192 * 8192;
+                    let at = if aimed { f.range(tail_start, len.saturating_sub(1)) } else { f.below(len + 1) };
                     let fault = match f.below(5) {
                         0 | 1 => Fault::Enospc { after_bytes: if f.chance(15) { 0 } else { at } },
                         2 => Fault::WriteEio { at_call: f.below(6) as u32, sticky: f.chance(70) },
